@@ -243,4 +243,179 @@ theorem idle_grant (r : Rule) (v : Val) (tm tk : LRU) (hs : Sync tm tk) (htok : 
   obtain ⟨t1, t2⟩ := htok v last rest hc
   exact ⟨by rw [hdur]; exact i1, t1, t2, by rw [hmax]; exact i2⟩
 
+/-! ## throttling mode -/
+
+/-- **pacing** and **wait_lt_max.**  While `v` is not evicted, consecutive admitted requests for `v` are scheduled
+    (clock reading + requested wait) at least the code's interval of the later request apart, and every
+    requested wait is positive and strictly below `MaxQueueingTimeMs` — whatever the other values do.
+    `H` bounds the clock readings (no-wrap guard). -/
+theorem pacing (r : Rule) (v : Val) (tm : LRU) (hp : 0 < tm.size) (qs : List Req) (H : Int)
+    (hne : NotEvictedT r v tm qs) (hmq : 0 ≤ r.mq)
+    (hcell : ∀ s, tm.find v = some s → 0 ≤ s ∧ s ≤ H + r.mq)
+    (hall : ∀ q ∈ qs, 0 ≤ q.t ∧ q.t ≤ H ∧ 0 ≤ interval (tokenCount r v) r.D q.b ∧
+      H + r.mq + interval (tokenCount r v) r.D q.b < two63) :
+    Paced (tokenCount r v) r.D (tm.find v) (forVal v (runThrottle r tm qs)) ∧
+      WaitsBelow r.mq (forVal v (runThrottle r tm qs)) := by
+  rw [sim_throttle r v _ tm hp (keepsT_of_notEvicted r v _ tm hp hne)]
+  exact sv_pacing_aux hmq (reqsOf v qs) (tm.find v) hcell (fun q hq => hall q (List.mem_filter.mp hq).1)
+
+theorem wait_lt_max (r : Rule) (v : Val) (tm : LRU) (hp : 0 < tm.size) (qs : List Req) (H : Int)
+    (hne : NotEvictedT r v tm qs) (hmq : 0 ≤ r.mq)
+    (hcell : ∀ s, tm.find v = some s → 0 ≤ s ∧ s ≤ H + r.mq)
+    (hall : ∀ q ∈ qs, 0 ≤ q.t ∧ q.t ≤ H ∧ 0 ≤ interval (tokenCount r v) r.D q.b ∧
+      H + r.mq + interval (tokenCount r v) r.D q.b < two63) :
+    WaitsBelow r.mq (forVal v (runThrottle r tm qs)) := (pacing r v tm hp qs H hne hmq hcell hall).2
+
+/-- the code's interval is the floor of the real-valued spacing, in whole ms -/
+theorem interval_is_floor (T D b : Int) (hT : 0 < T) (hD : 0 ≤ D) (hb : 0 ≤ b) (hfit : b * D * 1000 < 9007199254740992) :
+    interval T D b = b * D * 1000 / T := interval_floor hT hD hb hfit
+
+/-- the property as worded: the enforced spacing is at least the real-valued `batch·D/T` seconds, i.e.
+    `interval · T ≥ batch·D·1000` (ms·tokens) -/
+def pacing_real_statement : Prop :=
+  ∀ T D b : Int, 0 < T → 0 < D → 0 < b → b * D * 1000 < 9007199254740992 → b * D * 1000 ≤ interval T D b * T
+
+/-- **pacing_real_partial**: true whenever the threshold divides `batch·D·1000` … -/
+theorem pacing_real_partial (T D b : Int) (hT : 0 < T) (hD : 0 < D) (hb : 0 < b)
+    (hfit : b * D * 1000 < 9007199254740992) (hdvd : T ∣ b * D * 1000) : b * D * 1000 ≤ interval T D b * T :=
+  le_of_eq (interval_real_of_dvd hT (le_of_lt hD) (le_of_lt hb) hfit hdvd).symm
+
+/-- … and otherwise missed by less than one ms·T -/
+theorem pacing_real_gap (T D b : Int) (hT : 0 < T) (hD : 0 < D) (hb : 0 < b)
+    (hfit : b * D * 1000 < 9007199254740992) : b * D * 1000 < (interval T D b + 1) * T := by
+  rw [interval_floor hT (le_of_lt hD) (le_of_lt hb) hfit]
+  have := Int.lt_ediv_add_one_mul_self (b * D * 1000) hT
+  linarith
+
+/-- **known finding `hot-throttle-floor`**: threshold 2000/s, batch 1, duration 1 s — the interval is 0 … -/
+theorem pacing_real_witness : ¬ pacing_real_statement := by
+  intro h
+  have := h 2000 1 1 (by decide) (by decide) (by decide) (by decide)
+  revert this
+  decide
+
+/-- … and on the model of the code nothing is paced: four requests for one value at the same millisecond are
+    all admitted without any wait (threshold 2000/s; the real-valued spacing is 0.5 ms) -/
+theorem zero_interval_witness :
+    (runThrottle { res := "hz", cb := 1, T := 2000, D := 1 } ⟨20000, []⟩
+      [⟨0, "v", 1⟩, ⟨0, "v", 1⟩, ⟨0, "v", 1⟩, ⟨0, "v", 1⟩]).map (·.2) = [.pass, .pass, .pass, .pass] := by
+  decide
+
+/-! ## no argument, no limit -/
+
+/-- **no_arg_no_limit.**  If no rule of the resource extracts an argument from the call (no attachment under
+    its key and no argument at its index, or a nil one), the slot passes it, asks for no sleep, and no
+    controller state changes. -/
+theorem no_arg_no_limit (res : String) (args : List Val) (atts : List (String × Val)) (b : Int) :
+    ∀ (cs : List Ctl) (now : Int) (sl : List Int),
+      (∀ c ∈ cs, c.rule.res = res → extract c.rule args atts = none) →
+      slotCheck res args atts b cs now sl = (cs, now, { sleeps := sl }) := by
+  intro cs
+  induction cs with
+  | nil => intro _ _ _; rfl
+  | cons c cs ih =>
+    intro now sl hall
+    have ih' := ih now sl (fun x hx => hall x (List.mem_cons_of_mem _ hx))
+    unfold slotCheck
+    by_cases hr : c.rule.res ≠ res
+    · simp only [ih']; rw [if_pos hr]
+    · have hr' : c.rule.res = res := not_not.mp hr
+      simp only [ih']; rw [if_neg hr, hall c List.mem_cons_self hr']
+
+/-- extraction: the attachment under the rule's key wins, then the index counted from the end when negative;
+    out-of-range indices and nil values give "no argument" -/
+theorem extract_att (r : Rule) (args : List Val) (atts : List (String × Val)) (v : Val)
+    (hk : r.key ≠ "") (hl : atts.lookup r.key = some v) (hv : v ≠ nilV) : extract r args atts = some v := by
+  have : atts.isEmpty = false := by cases atts with
+    | nil => simp at hl
+    | cons _ _ => rfl
+  simp [extract, extractAtt, this, hk, hl, nonNil, hv]
+
+theorem extract_neg_index (r : Rule) (args : List Val) (k : Nat) (hk : r.idx = -((k : Int) + 1)) (hlen : k < args.length)
+    (hkey : r.key = "") : extract r args [] = nonNil (args[args.length - 1 - k]'(by omega)) := by
+  have h1 : extractAtt r [] = none := by simp [extractAtt]
+  simp only [extract, h1, extractIdx]
+  have hlt : r.idx < 0 := by omega
+  simp only [hlt, if_true]
+  have h2 : ¬ ((args.length : Int) + r.idx < 0) := by omega
+  have h3 : ¬ ((args.length : Int) + r.idx ≥ args.length) := by omega
+  simp only [h2, h3, if_false]
+  have h4 : ((args.length : Int) + r.idx).toNat = args.length - 1 - k := by omega
+  rw [h4, List.getElem?_eq_getElem (by omega)]
+
+theorem extract_out_of_range (r : Rule) (args : List Val) (hkey : r.key = "")
+    (h : (args.length : Int) ≤ r.idx ∨ r.idx < -(args.length : Int)) : extract r args [] = none := by
+  have h1 : extractAtt r [] = none := by simp [extractAtt]
+  simp only [extract, h1, extractIdx]
+  rcases h with h | h
+  · have hlt : ¬ r.idx < 0 := by omega
+    have h2 : ¬ r.idx < 0 := hlt
+    have h3 : r.idx ≥ (args.length : Int) := h
+    simp [hlt, h3]
+  · have hlt : r.idx < 0 := by omega
+    have h2 : (args.length : Int) + r.idx < 0 := by omega
+    simp [hlt, h2]
+
+/-! ## independence -/
+
+/-- **independence (reject).**  While the live values (those in the cache plus those of the history) fit into
+    the capacity, the decisions for `v` are exactly the decisions of the same controller on the same requests
+    with all other values' requests deleted. -/
+theorem independence_reject (r : Rule) (v : Val) (tm tk : LRU) (hs : Sync tm tk) (hnd : tm.keys.Nodup)
+    (qs : List Req) (hcap : (tm.keys ++ qs.map (·.v)).dedup.length ≤ tm.size) :
+    forVal v (runReject r tm tk qs) = runReject r tm tk (reqsOf v qs) := by
+  have hsub : tm.keys ⊆ (tm.keys ++ qs.map (·.v)).dedup := fun x hx =>
+    List.mem_dedup.mpr (List.mem_append_left _ hx)
+  have hall : ∀ q ∈ qs, q.v ∈ (tm.keys ++ qs.map (·.v)).dedup := fun q hq =>
+    List.mem_dedup.mpr (List.mem_append_right _ (List.mem_map.mpr ⟨q, hq, rfl⟩))
+  rw [sim_reject r v qs tm tk hs (keeps_of_cap r v _ qs tm tk hs hnd hsub hall hcap)]
+  rw [← forVal_reqsOf_run r v qs tm tk]
+  rw [sim_reject r v (reqsOf v qs) tm tk hs
+    (keeps_of_cap r v _ (reqsOf v qs) tm tk hs hnd hsub (reqsOf_vals_subset v qs hall) hcap), reqsOf_idem]
+
+/-- **independence (throttling).** -/
+theorem independence_throttle (r : Rule) (v : Val) (tm : LRU) (hp : 0 < tm.size) (hnd : tm.keys.Nodup)
+    (qs : List Req) (hcap : (tm.keys ++ qs.map (·.v)).dedup.length ≤ tm.size) :
+    forVal v (runThrottle r tm qs) = runThrottle r tm (reqsOf v qs) := by
+  have hsub : tm.keys ⊆ (tm.keys ++ qs.map (·.v)).dedup := fun x hx =>
+    List.mem_dedup.mpr (List.mem_append_left _ hx)
+  have hall : ∀ q ∈ qs, q.v ∈ (tm.keys ++ qs.map (·.v)).dedup := fun q hq =>
+    List.mem_dedup.mpr (List.mem_append_right _ (List.mem_map.mpr ⟨q, hq, rfl⟩))
+  rw [sim_throttle r v qs tm hp (keepsT_of_cap r v _ qs tm hp hnd hsub hall hcap)]
+  rw [← forVal_reqsOf_runT r v qs tm]
+  rw [sim_throttle r v (reqsOf v qs) tm hp
+    (keepsT_of_cap r v _ (reqsOf v qs) tm hp hnd hsub (reqsOf_vals_subset v qs hall) hcap), reqsOf_idem]
+
+/-- from a freshly loaded rule: as long as the history mentions at most `capOf r` distinct values -/
+theorem independence_fresh (r : Rule) (v : Val) (qs : List Req) (hcap : (qs.map (·.v)).dedup.length ≤ capOf r) :
+    forVal v (runReject r (mkCtl 0 r).time (mkCtl 0 r).token qs)
+      = runReject r (mkCtl 0 r).time (mkCtl 0 r).token (reqsOf v qs) ∧
+    forVal v (runThrottle r (mkCtl 0 r).time qs) = runThrottle r (mkCtl 0 r).time (reqsOf v qs) := by
+  constructor
+  · exact independence_reject r v _ _ (fresh_sync r) (by simp [mkCtl, LRU.keys]) qs (by simpa [mkCtl, LRU.keys] using hcap)
+  · exact independence_throttle r v _ (capOf_pos r) (by simp [mkCtl, LRU.keys]) qs (by simpa [mkCtl, LRU.keys] using hcap)
+
+/-- … and the one-value behaviour is the reference machine the oracle runs -/
+theorem decisions_are_one_value_machine (r : Rule) (v : Val) (qs : List Req)
+    (hcap : (qs.map (·.v)).dedup.length ≤ capOf r) :
+    forVal v (runReject r (mkCtl 0 r).time (mkCtl 0 r).token qs)
+      = svRunReject (tokenCount r v) (maxCount r v) (durMs r) none (reqsOf v qs) ∧
+    forVal v (runThrottle r (mkCtl 0 r).time qs)
+      = svRunThrottle (tokenCount r v) r.D r.mq none (reqsOf v qs) := by
+  have hall : ∀ q ∈ qs, q.v ∈ (qs.map (·.v)).dedup := fun q hq =>
+    List.mem_dedup.mpr (List.mem_map.mpr ⟨q, hq, rfl⟩)
+  constructor
+  · exact sim_reject r v qs _ _ (fresh_sync r)
+      (keeps_of_cap r v _ qs _ _ (fresh_sync r) (by simp [mkCtl, LRU.keys]) (by simp [mkCtl, LRU.keys]) hall hcap)
+  · exact sim_throttle r v qs _ (capOf_pos r)
+      (keepsT_of_cap r v _ qs _ (capOf_pos r) (by simp [mkCtl, LRU.keys]) (by simp [mkCtl, LRU.keys]) hall hcap)
+
+/-- independence is really lost above the capacity (so the hypothesis is needed): capacity 1, values a,b,a —
+    the third request finds `a` evicted and starts a fresh bucket although `a` alone would have been refused -/
+theorem over_capacity_witness :
+    let r : Rule := { res := "r", cb := 0, T := 1, D := 1, cap := 1 }
+    (forVal "a" (runReject r ⟨1, []⟩ ⟨1, []⟩ [⟨0, "a", 1⟩, ⟨0, "b", 1⟩, ⟨0, "a", 1⟩])).map (·.2) = [.pass, .pass] ∧
+    (runReject r ⟨1, []⟩ ⟨1, []⟩ (reqsOf "a" [⟨0, "a", 1⟩, ⟨0, "b", 1⟩, ⟨0, "a", 1⟩])).map (·.2) = [.pass, .block] := by
+  decide
+
 end Sentinel.C05
